@@ -236,6 +236,68 @@ func doNotationScenario(bound int) *vsched.Scenario {
 	}
 }
 
+// ctorScenario: the method-style constructors. The target comes from Cor.New (an interface{}
+// coroutine), two callers from NewAndStart (each effect waits until its coroutine variable is assigned);
+// echo generator: every caller gets its own x back, 2 requests each.
+func ctorScenario(bound int) *vsched.Scenario {
+	fam := "constructors"
+	return &vsched.Scenario{
+		Name:  "constructors/Cor.New+NewAndStart",
+		Bound: bound,
+		Body: func() {
+			var target *fpgo.CorDef[interface{}]
+			target = fpgo.Cor.New(func() {
+				var prev interface{} = 0
+				for i := 0; i < 4; i++ {
+					prev = target.YieldRef(prev) // answers with the previous request's x
+					vsched.Note("target-saw", i, prev.(int))
+				}
+			})
+			target.Start()
+			for c := 0; c < 2; c++ {
+				c := c
+				ready := make(chan struct{})
+				var me *fpgo.CorDef[interface{}]
+				me = target.NewAndStart(func() {
+					<-ready
+					for j := 0; j < 2; j++ {
+						v := me.YieldFrom(target, reqX(c, j))
+						vsched.Note("answer", c, j, v.(int))
+					}
+				})
+				close(ready)
+			}
+		},
+		Check: func(r *vsched.Result) []vsched.Failure {
+			fs := e1.Basic("C14", fam, r, nil)
+			if len(r.Panics) > 0 {
+				return fs
+			}
+			var order []int
+			for _, e := range r.Events {
+				if e.Kind == "target-saw" {
+					order = append(order, e.Args[1].(int))
+				}
+			}
+			if len(order) != 4 {
+				fs = append(fs, e1.Fail("C14|"+fam+"|lost-request", "the target took %d of 4 requests: %v", len(order), order))
+				return fs
+			}
+			for i, x := range order {
+				c, j := x/100-1, x%100
+				want := 0
+				if i > 0 {
+					want = order[i-1]
+				}
+				if c < 0 || c > 1 || j > 1 || e1.Count(r, "answer", c, j, want) != 1 {
+					fs = append(fs, e1.Fail("C14|"+fam+"|misrouted", "request #%d (x=%d) must be answered with %d exactly once to its caller: %v", i, x, want, r.Events))
+				}
+			}
+			return fs
+		},
+	}
+}
+
 func scenarios(tier string) []*vsched.Scenario {
 	b := 2
 	if tier == "thorough" {
@@ -250,7 +312,7 @@ func scenarios(tier string) []*vsched.Scenario {
 		pairScenario("fixed", 2, 2, true, 3, true),   // delay bounding: the pre-emption-bounded space of 2x2 requests is large
 		pairScenario("echo", 3, 1, false, 3, true),
 		pairScenario("fixed", 7, 1, false, 1, true), // 7 pending requests at once (> buffer): delay bounding
-		startWithValScenario(false, b), startWithValScenario(true, b), doNotationScenario(b))
+		startWithValScenario(false, b), startWithValScenario(true, b), doNotationScenario(b), ctorScenario(1))
 	if tier == "thorough" {
 		out = append(out, pairScenario("accumulate", 2, 2, false, 1, false), pairScenario("fixed", 2, 2, true, 1, false), pairScenario("echo", 3, 1, false, 1, false), pairScenario("fixed", 3, 2, true, 3, true),
 			pairScenario("echo", 4, 1, false, 2, false), pairScenario("fixed", 8, 1, false, 2, true), pairScenario("accumulate", 7, 1, true, 2, true))
